@@ -7,12 +7,19 @@
 #include <stdint.h>
 #include "uk.h"
 
-static FILE *in; static long live; static long libc_calls_dummy;
+static FILE *in; static long live; static long libc_live, libc_calls;
+/* C library allocator activity is observed through the sanitizer's malloc/free hooks (uk_native itself allocates with mmap) */
+extern int __sanitizer_install_malloc_and_free_hooks(void (*malloc_hook)(const volatile void *, size_t), void (*free_hook)(const volatile void *));
+static void h_malloc(const volatile void *p, size_t n){ (void)p; (void)n; libc_live++; libc_calls++; }
+static void h_free(const volatile void *p){ if (p){ libc_live--; } libc_calls++; }
+static void open_replay(void);
+__attribute__((constructor)) static void install_hooks(void){ open_replay(); __sanitizer_install_malloc_and_free_hooks(h_malloc, h_free); }   /* stdio allocates its buffer before the hooks count */
 static void fail(const char *what, const char *msg){ fprintf(stderr, "UK_%s: %s\n", what, msg); fflush(stderr); _exit(17); }
 void _exit(int);
+static void open_replay(void){ const char *p = getenv("UK_REPLAY"); long long d; if (!p) return; in = fopen(p, "r"); if (in){ long pos = ftell(in); if (fscanf(in, "%lld", &d) == 1){ } fseek(in, pos, SEEK_SET); } }
 static long long next_val(void){
   long long v = 0;
-  if (!in){ const char *p = getenv("UK_REPLAY"); if (!p) fail("SETUP", "UK_REPLAY not set"); in = fopen(p, "r"); if (!in) fail("SETUP", "cannot open replay file"); }
+  if (!in) fail("SETUP", "UK_REPLAY not set or not readable");
   if (fscanf(in, "%lld", &v) != 1) v = 0;   /* inputs beyond the recorded ones are unconstrained: use 0 */
   return v;
 }
@@ -49,8 +56,8 @@ static int find_blk(const void *p){ int i; for (i = 0; i < nblk; i++) if (blk[i]
 void *uk_malloc(size_t n){ live++; return fenced(n, 1); }
 void uk_free(void *p){ int i; if (!p) return; i = find_blk(p); if (i < 0 || !blk[i].heap || blk[i].ptr != (char *)p) fail("HEAP", "free of a pointer that is not the base of a live block of this manager"); live--; munmap(blk[i].base, blk[i].maplen); blk[i].base = 0; }
 long uk_live(void){ return live; }
-long uk_live_libc(void){ return 0; }
-long uk_libc_calls(void){ return libc_calls_dummy; }
+long uk_live_libc(void){ return libc_live; }
+long uk_libc_calls(void){ return libc_calls; }
 void *uk_buf(size_t n, const char *name){ void *p = fenced(n, 0); (void)name; memset(p, 0, n); return p; }
 static void protect(const void *p, int prot){ int i = find_blk(p); if (i >= 0){ size_t pg = (size_t)sysconf(_SC_PAGESIZE); mprotect(blk[i].base, blk[i].maplen - pg, prot); } }
 
@@ -58,8 +65,8 @@ static void protect(const void *p, int prot){ int i = find_blk(p); if (i >= 0){ 
 static struct { const void *p; size_t n; unsigned char *snap; int kind; } ro[MAXRO]; static int nro;
 static void ro_check(int i){ if (ro[i].snap && memcmp(ro[i].p, ro[i].snap, ro[i].n) != 0) fail("MEM", ro[i].kind ? "store beyond the capacity limit" : "store to read-only object"); }
 static void ro_check_all(void){ int i; for (i = 0; i < nro; i++) if (ro[i].p) ro_check(i); }
-void uk_readonly(const void *p, size_t n){ static int reg; if (!reg){ atexit(ro_check_all); reg = 1; } if (!p || !n) return; protect(p, PROT_READ); if (nro == MAXRO) return; ro[nro].p = p; ro[nro].n = n; ro[nro].snap = malloc(n); memcpy(ro[nro].snap, p, n); ro[nro].kind = 0; nro++; }
-void uk_writable(const void *p){ int i; protect(p, PROT_READ | PROT_WRITE); for (i = 0; i < nro; i++) if (ro[i].p == p && ro[i].kind == 0){ ro_check(i); free(ro[i].snap); ro[i].p = 0; ro[i].snap = 0; } }
+void uk_readonly(const void *p, size_t n){ static int reg; if (!reg){ atexit(ro_check_all); reg = 1; } if (!p || !n) return; protect(p, PROT_READ); if (nro == MAXRO) return; ro[nro].p = p; ro[nro].n = n; ro[nro].snap = fenced(n, 0); memcpy(ro[nro].snap, p, n); ro[nro].kind = 0; nro++; }
+void uk_writable(const void *p){ int i; protect(p, PROT_READ | PROT_WRITE); for (i = 0; i < nro; i++) if (ro[i].p == p && ro[i].kind == 0){ ro_check(i); ro[i].p = 0; ro[i].snap = 0; } }
 void uk_kill(const void *p, size_t n){ int i = find_blk(p); (void)n; if (i >= 0){ size_t pg = (size_t)sysconf(_SC_PAGESIZE); mprotect(blk[i].base, blk[i].maplen - pg, PROT_NONE); } else if (p && n) memset((void *)p, 0xA5, n); }   /* any later access faults */
 void uk_watch(const void *p, size_t nbytes){ (void)p; (void)nbytes; }
 void uk_limit(const void *p, long nelem, int elsize){
@@ -69,10 +76,10 @@ void uk_limit(const void *p, long nelem, int elsize){
   sz = blk[i].n - (size_t)((const char *)p - blk[i].ptr);
   if (lim * (size_t)elsize >= sz) return;
   if (nro == MAXRO) return;
-  ro[nro].p = (const char *)p + lim * (size_t)elsize; ro[nro].n = sz - lim * (size_t)elsize; ro[nro].snap = malloc(ro[nro].n);
+  ro[nro].p = (const char *)p + lim * (size_t)elsize; ro[nro].n = sz - lim * (size_t)elsize; ro[nro].snap = fenced(ro[nro].n, 0);
   memcpy(ro[nro].snap, ro[nro].p, ro[nro].n); ro[nro].kind = 1; nro++;
 }
-void uk_unlimit(const void *p){ int i; for (i = 0; i < nro; i++) if (ro[i].p && ro[i].kind == 1 && (const char *)ro[i].p >= (const char *)p){ ro_check(i); free(ro[i].snap); ro[i].p = 0; ro[i].snap = 0; } }
+void uk_unlimit(const void *p){ int i; for (i = 0; i < nro; i++) if (ro[i].p && ro[i].kind == 1 && (const char *)ro[i].p >= (const char *)p){ ro_check(i); ro[i].p = 0; ro[i].snap = 0; } }
 int  uk_is_heap(const void *p){ (void)p; return 1; }
 void uk_fail(const char *msg){ fail("ASSERT_FAIL", msg); }
 void uk_exit(void){ exit(0); }
